@@ -132,6 +132,35 @@ def main():
         if rc != 0 or got != want:
             devs.append({"options": opts, "what": "a root that cannot be stat-ed changed the result for the other roots", "rc": rc,
                          "got": (got or [])[:3], "want": (want or [])[:3]})
+    # transform children that fail after producing output: non-zero exit, killed by a signal, a long non-ASCII diagnostic on stderr.
+    # Such a file alone is left out (with a warning); the healthy files are grouped as without it; the run ends with a report.
+    bind = os.path.join(d, "bin")
+    os.makedirs(bind)
+    filt = os.path.join(bind, "c15filter")
+    with open(filt, "w") as f:
+        f.write("#!/usr/bin/env python3\nimport os, signal, sys\nmode = os.environ.get('C15_MODE', 'exit')\ndata = sys.stdin.buffer.read()\n"
+                "if b'POISON' in data:\n    sys.stdout.buffer.write(data[:8]); sys.stdout.buffer.flush()\n"
+                "    if mode == 'signal': os.kill(os.getpid(), signal.SIGKILL)\n"
+                "    if mode == 'stderr': sys.stderr.write('x' + '\\u00e9' * 1500 + '\\n'); sys.stderr.flush()\n"
+                "    sys.exit(3)\nsys.stdout.buffer.write(data)\n")
+    os.chmod(filt, 0o755)
+    tt = os.path.join(d, "tt")
+    os.makedirs(tt)
+    for n, data in (("good1.dat", b"GOODGOOD" + b"g" * 900), ("good2.dat", b"GOODGOOD" + b"g" * 900), ("bad1.dat", b"SAMEHEAD POISON one " + b"1" * 880),
+                    ("bad2.dat", b"SAMEHEAD POISON two " + b"2" * 880)):
+        open(os.path.join(tt, n), "wb").write(data)
+    for mode in ("exit", "signal", "stderr"):
+        env = dict(base_env, PATH=bind + os.pathsep + base_env.get("PATH", ""), C15_MODE=mode)
+        rc, got, err = groups(binary, [tt], tt, ["--transform", "c15filter"], env)
+        runs += 1
+        want = [["good1.dat", "good2.dat"]]
+        names = sorted(sorted(os.path.basename(x) for x in g) for g in (got or [])) if got is not None else None
+        if rc != 0 or names != want:
+            devs.append({"options": ["--transform", "c15filter"], "child": {"exit": "prints 8 bytes, exits 3", "signal": "prints 8 bytes, is killed by SIGKILL",
+                         "stderr": "prints 8 bytes and 3 KB of non-ASCII text on stderr, exits 3"}[mode],
+                         "what": "files whose transform failed are grouped, or the run did not end with a report", "rc": rc, "groups": names, "stderr": err[-200:]})
+        elif "bad1.dat" not in err or "bad2.dat" not in err:
+            devs.append({"options": ["--transform", "c15filter"], "child": mode, "what": "no warning for a file whose transform failed"})
     print(json.dumps({"runs": runs, "n": len(devs), "deviations": devs[:8]}))
     shutil.rmtree(d, ignore_errors=True)
 
